@@ -51,6 +51,9 @@ func blockReach(start *ssa.BasicBlock, blocked map[*ssa.BasicBlock]bool) map[*ss
 func exitBlocks(fn *ssa.Function) []*ssa.BasicBlock {
 	var out []*ssa.BasicBlock
 	for _, b := range fn.Blocks {
+		if b == fn.Recover {
+			continue // reached only after a recovered panic
+		}
 		if len(b.Instrs) > 0 {
 			if _, ok := b.Instrs[len(b.Instrs)-1].(*ssa.Return); ok {
 				out = append(out, b)
